@@ -67,16 +67,104 @@ def oracle_c05(case):
     exp_groups = sorted(sorted(sorted(keysets[i]) for i in g) for g in exp if len(g) > 1)
     if merged_groups != exp_groups:
         return f"replacement list {merged_groups} does not match the merged components {exp_groups}"
-    for m in reg.models:
-        for p in m.pointers:
-            if p.type.index not in reg.models_map or (p.parent is not None and p.parent.index not in reg.models_map):
-                return "a pointer references an unregistered model"
+    msg = reference_defects(reg)
+    if msg:
+        return msg
     # every pointer reachable from the root field types targets a registered model
     for k, t in root.type.type.items():
         tgt = getattr(t, "type", None)
         if hasattr(tgt, "index") and tgt.index not in reg.models_map:
             return f"root field {k} points to unregistered model {tgt.index}"
     return None
+
+
+def _iter_ptrs(meta):
+    from json_to_models.dynamic_typing import BaseType, ModelPtr
+    if isinstance(meta, ModelPtr):
+        yield meta
+    elif isinstance(meta, dict):
+        for v in meta.values():
+            yield from _iter_ptrs(v)
+    elif isinstance(meta, BaseType):
+        try:
+            it = list(iter(meta))
+        except (TypeError, NotImplementedError):
+            return
+        for nested in it:
+            yield from _iter_ptrs(nested)
+
+
+def reference_defects(reg):
+    """'every reference anywhere in the graph points to a model that is still registered' - targets and owners, both directions"""
+    registered = reg.models_map
+
+    def is_reg(m):
+        return m is not None and registered.get(m.index) is m
+    for model in reg.models:
+        for field, t in model.type.items():
+            for ptr in _iter_ptrs(t):
+                if not is_reg(ptr.type):
+                    return f"{model}.{field}: pointer targets unregistered {ptr.type}"
+                if ptr.parent is not model:
+                    return f"{model}.{field}: pointer lives in {model} but its parent is {ptr.parent}"
+                if ptr not in ptr.type.pointers:
+                    return f"{model}.{field}: pointer is not in the pointer set of its target {ptr.type}"
+                if ptr not in model.child_pointers:
+                    return f"{model}.{field}: pointer is not among the child pointers of its owner"
+        for ptr in model.pointers:
+            if ptr.type is not model:
+                return f"{model}.pointers holds a pointer to {ptr.type}"
+            if ptr.parent is not None and not is_reg(ptr.parent):
+                return f"incoming pointer of {model} has unregistered parent {ptr.parent}"
+        for ptr in model.child_pointers:
+            if ptr.parent is not model:
+                return f"{model}.child_pointers holds a pointer owned by {ptr.parent}"
+            if not is_reg(ptr.type):
+                return f"child pointer of {model} targets unregistered {ptr.type}"
+    return None
+
+
+C05_HISTORIES = [
+    # (first batch, later batch): recursive trees, shared sub-objects, lists of objects - merged, then fed more data and merged again
+    ([("Tree", {"id": 1, "name": "root", "weight": 1.5, "children": [{"id": 2, "name": "leaf", "weight": 0.5, "children": []}]})],
+     [("Tree2", {"id": 7, "name": "other", "weight": 2.5, "children": [], "tag": 1})]),
+    ([("A", {"id": 1, "home": {"street": "s", "city": "c", "zip": 1}, "work": {"street": "s", "city": "c", "zip": 2}})],
+     [("B", {"id": 2, "addr": {"street": "t", "city": "d", "zip": 3, "floor": 1}})]),
+    ([("L", {"items": [{"a": 1, "b": 2, "c": {"k": 1}}, {"a": 1, "b": 2, "c": {"k": 2}, "d": 3}]})],
+     [("M", {"items": [{"a": 5, "b": 6, "c": {"k": 3}}], "more": {"a": 1, "b": 2, "c": {"k": 9}}})]),
+    ([("N", {"node": {"v": 1, "next": {"v": 2, "next": {"v": 3, "next": None}}}})], [("N2", {"node": {"v": 4, "next": None}, "x": 1})]),
+]
+
+
+def oracle_c05_history(i):
+    first, later = C05_HISTORIES[i]
+    gen = MetadataGenerator(str_types_registry=fresh_registry())
+    reg = ModelRegistry()
+    for name, doc in first:
+        reg.process_meta_data(gen.generate(doc), model_name=name)
+    reg.merge_models(gen)
+    msg = reference_defects(reg)
+    if msg:
+        return "after the first merge: " + msg
+    for name, doc in later:
+        reg.process_meta_data(gen.generate(doc), model_name=name)
+    reg.merge_models(gen)
+    msg = reference_defects(reg)
+    if msg:
+        return "after more data and a second merge: " + msg
+    reg.merge_models(gen)
+    msg = reference_defects(reg)
+    if msg:
+        return "after a third merge without new data: " + msg
+    return None
+
+
+@bounded("C05", "references_after_repeated_merges")
+def c05_hist(tier, seed):
+    r = run_cases(list(range(len(C05_HISTORIES))), oracle_c05_history, "c05_history")
+    r["bound"] = f"{len(C05_HISTORIES)} two-batch histories (recursive tree, linked list, shared and listed sub-objects) with the default comparators: merge, add data, merge, merge; pointer targets, owners and both pointer sets checked after each"
+    r["function"] = "ModelRegistry.merge_models/_merge, ModelPtr.replace/replace_parent"
+    return r
 
 
 def all_graphs(n):
@@ -299,6 +387,13 @@ HIST_INPUTS = [
     ({"Root": [{"Root": 1, "root": {"Root": 2}}]}, "pydantic", "flat", {}),
     ({"Root": [{"n": "1"}, {"n": "2.5"}]}, "pydantic", "flat", {"types_style": "literal_off"}),
     ({"Root": [{"a": {"x": 1}}]}, "pydantic", "nested", {"meta": True}),        # raises inside code generation (bad kwarg)
+    ({"Root": [{"n": "1", "f": "2.5", "s": "x"}]}, "attrs", "flat", {"post_init_converters": True}),
+    ({"Root": [{"n": "1", "f": "2.5", "s": "x"}]}, "dataclasses", "flat", {"post_init_converters": True}),
+    ({"Root": [{"n": "1", "f": "2.5", "s": "x"}]}, "base", "flat", {"post_init_converters": True}),
+    ({"Root": [{"s": "a"}, {"s": "b"}]}, "attrs", "flat", {"types_style": "literal_on"}),
+    ({"Root": [{"s": "a"}, {"s": "b"}]}, "attrs", "flat", {}),
+    ({"Root": [{"s": "a"}, {"s": "b"}]}, "dataclasses", "flat", {"types_style": "literal_off"}),
+    ({"Root": [{"s": "a"}, {"s": "b"}]}, "dataclasses", "flat", {}),
 ]
 
 
@@ -308,6 +403,9 @@ def run_one(i):
     if kw.get("types_style") == "literal_off":
         from json_to_models.dynamic_typing import StringLiteral
         kw["types_style"] = {StringLiteral: {StringLiteral.TypeStyle.use_literals: False}}
+    if kw.get("types_style") == "literal_on":
+        from json_to_models.dynamic_typing import StringLiteral
+        kw["types_style"] = {StringLiteral: {StringLiteral.TypeStyle.use_literals: True}}
     try:
         return pipeline(data, fw, layout, gen_kwargs=kw)[2]
     except Exception as e:
@@ -428,7 +526,7 @@ def c15(tier, seed):
     return r
 
 
-ORACLES = {"c05": lambda c: oracle_c05(tuple(c)), "c05_thr": lambda c: oracle_c05_thresholds(tuple(c)), "c09_string": lambda c: oracle_c09_string(tuple(c)),
+ORACLES = {"c05_history": oracle_c05_history, "c05": lambda c: oracle_c05(tuple(c)), "c05_thr": lambda c: oracle_c05_thresholds(tuple(c)), "c09_string": lambda c: oracle_c09_string(tuple(c)),
            "c09_resolve": lambda c: oracle_c09_resolve((c[0], grammar("quick", 0))), "c06": lambda c: oracle_c06(tuple(c)),
            "c14": oracle_c14, "c14_rerender": oracle_c14_rerender, "c15": lambda c: oracle_c15(tuple(c)),
            "c14_cli": lambda c: oracle_c14_cli(tuple(c))}
